@@ -238,6 +238,10 @@ Definition gou (subs : list (bytes * fspec)) : list (bytes * (fstate -> bytes ->
   (fix go (l : list (bytes * fspec)) : list (bytes * (fstate -> bytes -> fstate * ures Z)) :=
      match l with [] => [] | (t, s') :: r => (t, unpack_f s') :: go r end) subs.
 
+Definition gof (subs : list (bytes * fspec)) : list (bytes * fstate) :=
+  (fix go (l : list (bytes * fspec)) : list (bytes * fstate) := match l with [] => [] | (t, s') :: r => (t, fresh s') :: go r end) subs.
+Lemma blookup_gof tag subs : blookup tag (gof subs) = option_map fresh (blookup tag subs).
+Proof. induction subs as [|(t, s') r IH]; [reflexivity|]. cbn [gof blookup]. destruct (bytes_eqb tag t); [reflexivity|exact IH]. Qed.
 Lemma blookup_gop tag subs : blookup tag (gop subs) = option_map pack_f (blookup tag subs).
 Proof. induction subs as [|(t, s') r IH]; [reflexivity|]. cbn [gop blookup]. destruct (bytes_eqb tag t); [reflexivity|exact IH]. Qed.
 Lemma blookup_gou tag subs : blookup tag (gou subs) = option_map unpack_f (blookup tag subs).
@@ -409,10 +413,10 @@ Proof. reflexivity. Qed.
 
 Lemma unpack_f_comp pref len mode subs set sts data dlen offset set' sts' :
   dec_len pref len data = Ok (dlen, offset) -> (dlen <? 0) || (zlen data - offset <? dlen) = false ->
-  comp_unpack_body (gou subs) mode (ordered_tags mode subs) sts (ztake dlen (zdrop offset data)) (negb (offset =? 0)) = ((set', sts'), UOk dlen) ->
+  comp_unpack_body (gou subs) mode (ordered_tags mode subs) (gof subs) set sts (ztake dlen (zdrop offset data)) (negb (offset =? 0)) = ((set', sts'), UOk dlen) ->
   unpack_f (FComp pref len mode subs) (SComp set sts) data = (SComp set' sts', UOk (offset + dlen)).
 Proof.
-  intros Hd Hb Hu. cbn [unpack_f]. fold (gou subs). rewrite Hd, Hb. cbv zeta. rewrite Hu. rewrite Z.eqb_refl. reflexivity.
+  intros Hd Hb Hu. cbn [unpack_f]. fold (gou subs). fold (gof subs). rewrite Hd, Hb. cbv zeta. rewrite Hu. rewrite Z.eqb_refl. reflexivity.
 Qed.
 
 (* the statement proved by induction over the specification *)
@@ -506,6 +510,56 @@ Proof.
     cbv zeta in He. assert (w = zb (128 + zlen (be_bytes n)) :: be_bytes n) by congruence. subst w. pose proof (zlen_nonneg (be_bytes n)). zlens. lia.
 Qed.
 
+Fixpoint fspec_ind' (P : fspec -> Prop) (Hp : forall p, P (FPrim p))
+  (Hc : forall pref len mode subs, (forall tag s', In (tag, s') subs -> P s') -> P (FComp pref len mode subs)) (s : fspec) : P s :=
+  match s with
+  | FPrim p => Hp p
+  | FComp pref len mode subs => Hc pref len mode subs
+      ((fix go (l : list (bytes * fspec)) : forall tag s', In (tag, s') l -> P s' :=
+          match l with
+          | [] => fun tag s' H => match H with end
+          | (t, s1) :: r => fun tag s' H =>
+              match H with
+              | or_introl e => eq_ind (t, s1) (fun y => P (snd y)) (fspec_ind' P Hp Hc s1) (tag, s') e
+              | or_intror H' => go r tag s' H'
+              end
+          end) subs)
+  end.
+
+(* fresh objects (what NewComposite / NewMessage build) are shaped *)
+
+Theorem fresh_shaped s : coherent s -> shaped s (fresh s).
+Proof.
+  induction s as [p|pref len mode subs IH] using fspec_ind'; intros Hc; [exact I|].
+  cbn [coherent] in Hc. destruct Hc as (_ & Hnd & _ & Hsubs). cbn [fresh shaped]. fold (gof subs). apply shaped_subs. intros tag s' Hi.
+  exists (fresh s'). split; [rewrite blookup_gof, (In_blookup_nodup tag s' subs Hnd Hi); reflexivity|].
+  apply (IH tag s' Hi). eapply coherent_subs; eassumption.
+Qed.
+
+(* the reset unpack performs first keeps the object shaped *)
+Lemma blookup_reset freshes set sts tag : blookup tag (reset_set freshes set sts) =
+  match blookup tag sts with
+  | None => None
+  | Some st => Some (if bmem tag set then match blookup tag freshes with Some f => f | None => st end else st)
+  end.
+Proof.
+  unfold reset_set. induction sts as [|(k, v) r IH]; [reflexivity|]. cbn [map fst].
+  destruct (bytes_eqb tag k) eqn:E.
+  - assert (k = tag) by (symmetry; apply bytes_eqb_eq; exact E). subst k. cbn [blookup]. rewrite E.
+    destruct (bmem tag set); [|cbn [blookup]; rewrite E; reflexivity].
+    destruct (blookup tag freshes); cbn [blookup]; rewrite E; reflexivity.
+  - cbn [blookup]. rewrite E. rewrite <- IH.
+    destruct (bmem k set); [destruct (blookup k freshes)|]; cbn [blookup]; rewrite E; reflexivity.
+Qed.
+
+Lemma reset_shaped pref len mode subs set0 sts0 : NoDup (map fst subs) -> (forall tag s', In (tag, s') subs -> coherent s') ->
+  shaped (FComp pref len mode subs) (SComp set0 sts0) -> shaped (FComp pref len mode subs) (SComp set0 (reset_set (gof subs) set0 sts0)).
+Proof.
+  intros Hnd Hc Hs. cbn [shaped] in *. rewrite shaped_subs in *. intros tag s' Hi. destruct (Hs tag s' Hi) as (x & Hx & Hsx).
+  rewrite blookup_reset, Hx. eexists. split; [reflexivity|]. destruct (bmem tag set0); [|exact Hsx].
+  rewrite blookup_gof, (In_blookup_nodup tag s' subs Hnd Hi). cbn [option_map]. apply fresh_shaped. apply (Hc tag s' Hi).
+Qed.
+
 Lemma comp_roundtrip pref len mode subs : (forall tag s', In (tag, s') subs -> roundtrips s') -> roundtrips (FComp pref len mode subs).
 Proof.
   intros IH Hcoh st b Hdom Hp st0 rest Hsh.
@@ -513,7 +567,9 @@ Proof.
   pose proof (coherent_subs subs Hsubs) as Hcs.
   destruct st as [| | | |set sts]; try (cbn [in_dom] in Hdom; contradiction).
   destruct st0 as [| | | |set0 sts0]; try (cbn [shaped] in Hsh; contradiction).
-  pose proof Hsh as Hsh0. cbn [shaped] in Hsh0. rewrite shaped_subs in Hsh0.
+  set (rsts0 := reset_set (gof subs) set0 sts0).
+  assert (Hshr : shaped (FComp pref len mode subs) (SComp set0 rsts0)) by (apply reset_shaped; assumption).
+  pose proof Hshr as Hsh0. cbn [shaped] in Hsh0. rewrite shaped_subs in Hsh0.
   cbn [in_dom] in Hdom. destruct Hdom as (Hsub & Hmax & Hpos & Hds).
   pose proof (in_dom_subs (fun s' x => in_dom s' x /\ (positional mode && pref_is_var pref = true -> forall b, pack_f s' x = Ok b -> b <> [])) set sts subs Hds) as Hds'.
   rewrite pack_f_comp in Hp. set (tags := ordered_tags mode subs) in *.
@@ -529,14 +585,14 @@ Proof.
   { intros tag Ht. apply ordered_tags_In in Ht. destruct (In_blookup tag subs Ht) as (s' & Es). rewrite blookup_gou, Es. eexists; reflexivity. }
   assert (Hdomof : forall tag x, In tag tags -> bmem tag set = true -> blookup tag sts = Some x -> dom_of subs needne tag x).
   { intros tag x Ht Hm Hx s' Es. apply (Hds' tag s' (blookup_In _ _ _ Es) Hm x Hx). }
-  assert (Hshpof : forall tag, In tag tags -> exists s0, blookup tag sts0 = Some s0 /\ shp_of subs tag s0).
+  assert (Hshpof : forall tag, In tag tags -> exists s0, blookup tag rsts0 = Some s0 /\ shp_of subs tag s0).
   { intros tag Ht. apply ordered_tags_In in Ht. destruct (In_blookup tag subs Ht) as (s' & Es).
     destruct (Hsh0 tag s' (blookup_In _ _ _ Es)) as (x & Hx & Hs). exists x. split; [exact Hx|]. intros s2 E2. assert (s2 = s') by congruence. subst. exact Hs. }
-  assert (Hkey : exists set' sts', comp_unpack_body (gou subs) mode tags sts0 body (negb (zlen pre =? 0)) = ((set', sts'), UOk (zlen body)) /\
-                                   post subs tags set sts sts0 set' sts').
-  { destruct mode as [t|bm]; [|contradiction]. cbn [comp_unpack_body comp_pack_body] in *. destruct (tg_enc t) as [e|] eqn:Ee.
+  assert (Hkey : exists set' sts', comp_unpack_body (gou subs) mode tags (gof subs) set0 sts0 body (negb (zlen pre =? 0)) = ((set', sts'), UOk (zlen body)) /\
+                                   post subs tags set sts rsts0 set' sts').
+  { destruct mode as [t|bm]; [|contradiction]. unfold comp_unpack_body. cbv zeta. fold rsts0. cbn [comp_pack_body] in *. destruct (tg_enc t) as [e|] eqn:Ee.
     - destruct (unpack_by_tag_rt (gop subs) (gou subs) t e (dom_of subs needne) (shp_of subs) (R_of subs) tags set sts body Htags_nd) with
-        (fuel := S (length body)) (data := body) (off := 0) (pre := @nil byte) (seta := @nil bytes) (stsa := sts0) as (set' & sts' & Hun & H1 & H2 & H3).
+        (fuel := S (length body)) (data := body) (off := 0) (pre := @nil byte) (seta := @nil bytes) (stsa := rsts0) as (set' & sts' & Hun & H1 & H2 & H3).
       + intros tag Ht. split; [apply sub_rt_of; assumption|]. split; [apply Hmode; apply (proj1 (ordered_tags_In (CTag t) subs tag) Ht)|apply Hup_ex; exact Ht].
       + exact Hdomof.
       + exact Ebody.
@@ -548,7 +604,7 @@ Proof.
     - destruct (Hpos ltac:(cbn [positional]; rewrite Ee; reflexivity)) as (o1 & o2 & Ho & Ho1 & Ho2 & Hnil & Hfix).
       fold tags in Ho. rewrite Ho in *.
       destruct (unpack_positional_rt (gop subs) (gou subs) t (dom_of subs needne) (shp_of subs) (R_of subs) Ee (negb (zlen pre =? 0)) o1 o2 set sts body Htags_nd) with
-        (data := body) (off := 0) (pre := @nil byte) (seta := @nil bytes) (stsa := sts0) as (set' & sts' & Hun & H1 & H2 & H3).
+        (data := body) (off := 0) (pre := @nil byte) (seta := @nil bytes) (stsa := rsts0) as (set' & sts' & Hun & H1 & H2 & H3).
       + intros tag Ht. split; [apply sub_rt_of; assumption|apply Hup_ex; exact Ht].
       + intros tag x Ht. apply Hdomof; [apply in_or_app; left; exact Ht|apply Ho1; exact Ht].
       + exact Ho1.
@@ -574,7 +630,7 @@ Proof.
         * intros tag Hi Hm. apply H2. apply Hiff. split; assumption.
         * intros tag Hn. apply H3. intros Hi. apply Hn. apply Hiff. exact Hi. }
   destruct Hkey as (set' & sts' & Hun & Hpost).
-  destruct (post_finish subs Hnd pref len mode set sts set0 sts0 set' sts' body Hsub Hsh) as (Heq & Hpk & Hshp).
+  destruct (post_finish subs Hnd pref len mode set sts set0 rsts0 set' sts' body Hsub Hshr) as (Heq & Hpk & Hshp).
   { destruct mode; [exact I|contradiction]. } { exact Ebody. } { exact Hpost. }
   exists (SComp set' sts'). split; [|split; [exact Heq|split; [|exact Hshp]]].
   - rewrite <- app_assoc. replace (zlen (pre ++ body)) with (zlen pre + zlen body) by (zlens; reflexivity).
@@ -584,22 +640,6 @@ Proof.
     + rewrite zdrop_app, ztake_app. exact Hun.
   - rewrite pack_f_comp. cbv zeta in Hpk. unfold tags in *. rewrite Hpk. cbn [obind]. rewrite Epre. reflexivity.
 Qed.
-
-Fixpoint fspec_ind' (P : fspec -> Prop) (Hp : forall p, P (FPrim p))
-  (Hc : forall pref len mode subs, (forall tag s', In (tag, s') subs -> P s') -> P (FComp pref len mode subs)) (s : fspec) : P s :=
-  match s with
-  | FPrim p => Hp p
-  | FComp pref len mode subs => Hc pref len mode subs
-      ((fix go (l : list (bytes * fspec)) : forall tag s', In (tag, s') l -> P s' :=
-          match l with
-          | [] => fun tag s' H => match H with end
-          | (t, s1) :: r => fun tag s' H =>
-              match H with
-              | or_introl e => eq_ind (t, s1) (fun y => P (snd y)) (fspec_ind' P Hp Hc s1) (tag, s') e
-              | or_intror H' => go r tag s' H'
-              end
-          end) subs)
-  end.
 
 (* Pack then Unpack of any coherent (nested) field specification whose composites are tagged or positional: the same
    content comes back (equiv), exactly the packed bytes are consumed whatever follows and whatever the object held, and
@@ -640,16 +680,3 @@ Proof.
     rewrite (ber_tag_len_wf w rest Hw), ztake_app. reflexivity.
 Qed.
 
-(* fresh objects (what NewComposite / NewMessage build) are shaped *)
-Definition gof (subs : list (bytes * fspec)) : list (bytes * fstate) :=
-  (fix go (l : list (bytes * fspec)) : list (bytes * fstate) := match l with [] => [] | (t, s') :: r => (t, fresh s') :: go r end) subs.
-Lemma blookup_gof tag subs : blookup tag (gof subs) = option_map fresh (blookup tag subs).
-Proof. induction subs as [|(t, s') r IH]; [reflexivity|]. cbn [gof blookup]. destruct (bytes_eqb tag t); [reflexivity|exact IH]. Qed.
-
-Theorem fresh_shaped s : coherent s -> shaped s (fresh s).
-Proof.
-  induction s as [p|pref len mode subs IH] using fspec_ind'; intros Hc; [exact I|].
-  cbn [coherent] in Hc. destruct Hc as (_ & Hnd & _ & Hsubs). cbn [fresh shaped]. fold (gof subs). apply shaped_subs. intros tag s' Hi.
-  exists (fresh s'). split; [rewrite blookup_gof, (In_blookup_nodup tag s' subs Hnd Hi); reflexivity|].
-  apply (IH tag s' Hi). eapply coherent_subs; eassumption.
-Qed.
